@@ -271,6 +271,11 @@ func (s *Solver) check1(pc []*Term, extra []*Term, wantModel bool) (string, map[
 		for _, l := range lines {
 			l = strings.TrimSpace(l)
 			if strings.HasPrefix(l, "(error") {
+				if strings.Contains(l, "canceled") || strings.Contains(l, "timeout") {
+					// z3 5.x reports an expired :timeout this way
+					res = "unknown"
+					continue
+				}
 				s.Stats.Errors++
 				s.lastErr = l
 				res = "error"
